@@ -80,6 +80,7 @@ def build(rng, e, with_jobs=False):
         else:
             cov = g.get("rho", 0.0) * float(s * g["ka"]) * float(s * g["kb"])
             cfgf["sigma"] = [[va, cov], [cov, vb]]
+    cfgf["via"] = rng.choice([None, None, "translate", "resize"])
     calls = []
     n = len(dgms)
     for i in range(n):
